@@ -67,3 +67,16 @@ Theorem S_final_assert_is_source :
 Proof. exact final_assert_is_source. Qed.
 Print Assumptions S_final_assert_is_source.
 
+
+Theorem S_world_operations_are_source :
+  forall (NN : Num) (w : world NN) (idx : nat) (h : handle NN) (step g : carrier NN), nth_error
+    (w_handles NN w) idx = Some h -> w_set_sampled NN w idx step g = (let '(old', v') :=
+    gen_set_sampled NN (h_min NN h) (h_max NN h) (h_old NN h) (get_cell NN (w_params NN w)
+    (h_cell NN h)) step g in Some {| w_params := set_nth (w_params NN w) (h_cell NN h) v';
+    w_handles := set_nth (w_handles NN w) idx (with_old NN h old'); w_calls := w_calls NN w |})
+    /\ w_reset NN w idx = (let '(_, v') := gen_reset_value NN (h_old NN h) (get_cell NN
+    (w_params NN w) (h_cell NN h)) in Some {| w_params := set_nth (w_params NN w) (h_cell NN h)
+    v'; w_handles := w_handles NN w; w_calls := w_calls NN w |}).
+Proof. exact world_operations_are_source. Qed.
+Print Assumptions S_world_operations_are_source.
+
